@@ -114,7 +114,7 @@ fn type_args(p: &syn::Path) -> Vec<&Type> {
 
 const CELLS: &[&str] = &["MutRc", "MutArc", "Rc", "Arc", "RefCell", "Mutex", "Cell"];
 /// the traits whose impls are translated
-const TRAITS: &[&str] = &["Observer", "Subscription", "Publisher", "SubjectSize", "Observable", "Behavior"];
+const TRAITS: &[&str] = &["Observer", "Subscription", "Publisher", "SubjectSize", "Observable", "Behavior", "Drop"];
 const PHANTOMS: &[&str] = &["TypeHint", "PhantomData"];
 
 impl Generics {
@@ -230,6 +230,7 @@ impl Generics {
                     "Option" => Ok(Ty::Opt(Box::new(self.ty(args[0])?))),
                     "Vec" | "VecDeque" | "HashSet" => Ok(Ty::List(Box::new(self.ty(args[0])?))),
                     "Infallible" => Ok(Ty::Err),
+                    "BoxSubscription" | "BoxSubscriptionThreads" => Ok(Ty::Sub),
                     _ if CELLS.contains(&name.as_str()) && args.len() == 1 => self.ty(args[0]),
                     _ => {
                         if tp.path.segments.len() == 1 && args.is_empty() {
@@ -451,6 +452,7 @@ impl<'a> Fx<'a> {
                 match &f.member {
                     Member::Named(n) => base.path.push(Seg::Field(n.to_string())),
                     Member::Unnamed(ix) => match bt {
+                        Some(Ty::Sub) | Some(Ty::Pub) if ix.index == 0 => {}
                         Some(Ty::Tuple(ts)) => base.path.push(Seg::Idx(ix.index as usize, ts.len())),
                         _ => return bail(format!("tuple index on a place of unknown type: `{}`", show(e))),
                     },
@@ -882,6 +884,50 @@ impl<'a> Fx<'a> {
             }
             Expr::Match(m) => {
                 let t = self.tyx(&m.expr);
+                // `match cell.as_mut() { Some(vec) => …mutates vec…, None => … }`: the payload is worked on as a copy
+                // and written back at the end of the arm (as in `if let`)
+                if let (Some(Ty::Opt(inner)), true, 2) = (
+                    &t,
+                    matches!(&*m.expr, Expr::MethodCall(mc) if mc.method == "as_mut"),
+                    m.arms.len(),
+                ) {
+                    if matches!(&**inner, Ty::List(_) | Ty::Named(_)) {
+                        let some_arm = m.arms.iter().find(|a| matches!(&a.pat, Pat::TupleStruct(ts) if last_seg(&ts.path) == "Some"));
+                        let none_arm = m.arms.iter().find(|a| !matches!(&a.pat, Pat::TupleStruct(_)));
+                        if let (Some(sa), Some(na), Ok(pl)) = (some_arm, none_arm, self.place(&m.expr)) {
+                            if let Pat::TupleStruct(ts) = &sa.pat {
+                                if let Some(Pat::Ident(pi)) = ts.elems.first() {
+                                    let v = ident(&pi.ident.to_string());
+                                    let cur = self.read_place(&pl);
+                                    let saved_l = self.locals.clone();
+                                    let saved_a = self.aliases.clone();
+                                    self.emit(format!("match {} with", cur));
+                                    self.emit(format!("| (some {}0) =>", v));
+                                    self.ind += 2;
+                                    self.emit(format!("let mut {} := {}0", v, v));
+                                    self.aliases.remove(&v);
+                                    self.locals.insert(v.clone(), (**inner).clone());
+                                    self.expr_stmt(&sa.body)?;
+                                    if self.effectful {
+                                        self.write_place(&pl, &format!("(some {})", v))?;
+                                    }
+                                    self.ind -= 2;
+                                    self.locals = saved_l;
+                                    self.aliases = saved_a;
+                                    self.emit("| none =>");
+                                    self.ind += 2;
+                                    let n0 = self.lines.len();
+                                    self.expr_stmt(&na.body)?;
+                                    if self.lines.len() == n0 {
+                                        self.emit("pure ()");
+                                    }
+                                    self.ind -= 2;
+                                    return Ok(());
+                                }
+                            }
+                        }
+                    }
+                }
                 let scrut = self.expr(&m.expr)?;
                 self.emit(format!("match {} with", scrut));
                 for arm in &m.arms {
@@ -1300,6 +1346,7 @@ impl<'a> Fx<'a> {
             let name = full.last().unwrap().as_str();
             let args: Vec<&Expr> = c.args.iter().collect();
             match (name, args.len()) {
+                ("drop", 1) if full.len() == 1 => return Ok("()".into()),
                 ("new", 1) if full.len() == 2 && full[0] == "Box" => return self.expr(args[0]),
                 ("new", 1) if full.len() == 2 && full[0].starts_with("Subscriber") => return Ok("newPub".into()),
                 ("Some", 1) => return Ok(format!("(some {})", self.expr(args[0])?)),
@@ -1449,6 +1496,13 @@ impl<'a> Fx<'a> {
                 return Ok("()".into());
             }
         }
+        if (name == "all" || name == "any") && nargs == 1 {
+            if let (Some(Ty::List(et)), Expr::Closure(_)) = (rt.clone(), args[0]) {
+                let (p, b) = self.closure1(args[0], Some(*et))?;
+                let r = self.expr(&m.receiver)?;
+                return Ok(format!("(List.{} {} (fun {} => {}))", name, r, p, b));
+            }
+        }
         if name == "retain" && nargs == 1 {
             if let (Some(Ty::List(et)), Expr::Closure(_)) = (rt.clone(), args[0]) {
                 let (p, b) = self.closure1(args[0], Some(*et))?;
@@ -1478,9 +1532,14 @@ impl<'a> Fx<'a> {
                     self.out(format!("Rs.emitUnsub {}.id", r))?;
                     return Ok("()".into());
                 }
-                ("is_closed", 0) => {
+                ("is_closed", 0) | ("boxed_is_closed", 0) => {
                     let r = self.expr(&m.receiver)?;
                     return Ok(format!("(Rs.isClosed {} closedOf)", r));
+                }
+                ("boxed_unsubscribe", 0) => {
+                    let r = self.expr(&m.receiver)?;
+                    self.out(format!("Rs.emitUnsub {}.id", r))?;
+                    return Ok("()".into());
                 }
                 _ => {}
             }
@@ -1793,6 +1852,13 @@ fn impls_of<'f>(items: &'f [Item], name: &str) -> Vec<&'f ItemImpl> {
         .filter_map(|i| match i {
             Item::Impl(im) => match impl_target(&im.self_ty) {
                 Some((n, _, cell)) if n == name || (name == "RcObserver" && n == "Option" && cell) => Some(im),
+                Some((n, a, false))
+                    if name == "RcSubscription"
+                        && a.is_empty()
+                        && im.generics.params.iter().any(|p| matches!(p, GenericParam::Type(tp) if tp.ident == n)) =>
+                {
+                    Some(im)
+                }
                 _ => None,
             },
             _ => None,
@@ -1910,6 +1976,10 @@ pub fn translate_observer(items: &[Item], name: &str, ctx: &mut Ctx, hints: &Has
     let mut newtype = false;
     if pseudo {
         root_ty = Some(Ty::Opt(Box::new(Ty::Obs)));
+    } else if name == "RcSubscription" {
+        // `impl<T, S> Subscription for T where T: RcDerefMut<Target = Option<S>>, S: Subscription`: a cell holding
+        // an optional subscription (the handler cells of debounce / throttle / buffer_with_time)
+        root_ty = Some(Ty::Opt(Box::new(Ty::Sub)));
     } else {
         let st = find_struct(items, name).ok_or(format!("struct {} not found", name))?;
         // the struct's own parameter names ↦ the impl's arguments
@@ -2353,8 +2423,23 @@ pub fn translate_init(items: &[Item], op: &str, obs: &str, ctx: &Ctx, hints: &Ha
             .ok_or(format!("impl Default for {} not found", op))?;
         let mut fx = InitFx { op_fields: HashMap::new(), used: vec![], ctx, items, locals: HashMap::new(), obs_locals: vec![], lets: HashMap::new() };
         let body = Expr::Block(syn::ExprBlock { attrs: vec![], label: None, block: f.block.clone() });
-        let lit = find_struct_lit(&body, obs).ok_or(format!("no struct literal in {}::default", obs))?;
-        let v = fx.expr(&Expr::Struct(lit.clone()), &Ty::Named(obs.to_string()))?;
+        let v = match find_struct_lit(&body, obs) {
+            Some(lit) => fx.expr(&Expr::Struct(lit.clone()), &Ty::Named(obs.to_string()))?,
+            None => {
+                // newtype: `Self(MutRc::own(Some(<_>::default())))`
+                let root = ctx.structs.get(obs).and_then(|si| si.root_ty.clone()).ok_or(format!("no struct literal in {}::default", obs))?;
+                let call = f
+                    .block
+                    .stmts
+                    .iter()
+                    .find_map(|st| match st {
+                        Stmt::Expr(Expr::Call(c), _) if matches!(&*c.func, Expr::Path(p) if last_seg(&p.path) == "Self" || last_seg(&p.path) == obs) => Some(c),
+                        _ => None,
+                    })
+                    .ok_or(format!("no `Self(..)` in {}::default", obs))?;
+                fx.expr(&call.args[0], &root)?
+            }
+        };
         let _ = hints;
         return Ok(format!("def {}.init : {} :=\n  {}\n\n", obs, obs, v));
     }
